@@ -226,6 +226,21 @@ def T_pools_callback_arrows(n):
     return _sibling_pools(n, lambda b: "function fa() { return [0].map(() => { " + b + " })[0]; }", lambda b: "function fb() { var r; [0].forEach(() => { r = (() => { " + b + " })(); }); return r; }")
 
 
+# ---- one very long source LINE: columns beyond 65535, parenthesised expressions and arrow functions at every distance
+def T_long_line_parens(n):
+    # n = 16 * count + pad: count statements of 11 characters and pad blanks on ONE line between a grouping paren and an arrow
+    # function's parameter list, so that the distance between the two parens takes every value in a window around 65536 columns
+    count, pad = divmod(n, 16)
+    src = "var x = 0; var g = (1 + 2);" + " " * pad + " " + "x = x + 1; " * count + "var f = (a, b) => a * b; var h = (x); f(6, 7) + g + h"
+    return src, 42 + 3 + count
+
+
+def T_long_line_arrows(n):
+    count, pad = divmod(n, 16)
+    src = "var k = (p) => p + 1;" + " " * pad + " var s = 0; " + "s += k(1); " * count + "var q = (s); var m = (u, v) => u - v; m(q, 0)"
+    return src, 2 * count
+
+
 def T_and_chain(n):
     return " && ".join(["1"] * n) + " && 7", 7
 
@@ -469,6 +484,8 @@ def main(ctx):
             ns += [6552, 6553, 6554, 6560, 7000] if name not in ("and_chain", "or_chain", "ternary_chain") else [9362, 9363, 10922, 10923, 13107, 16384]
             if name.startswith("bigfn_via_"):
                 ns += [3270, 3275, 3276, 3277, 3280, 3300, 4000, 6000]     # around bytecode offset 32768
+        if name.startswith("long_line_"):
+            ns = [16, 1600] + [16 * c + p_ for c in (5953, 5954, 5955, 5956, 5957) for p_ in range(16)] + [16 * 7000, 16 * 12000 + 3]    # paren distances 65499 .. 65558: every column offset around 65536
         if name.startswith("pools_"):
             ns = [1, 2, 30, 60, 62, 63, 64, 65, 66, 70, 100, 127, 128, 129, 200, 250, 253, 254, 255, 256, 300]     # pool sizes (three pools per program)
         if name.startswith("lit_"):
